@@ -276,11 +276,32 @@ def expand(ev, t, keep=(), limit=400, keep_attrs=()):
     evaluator can inline; kernel vocabulary (the functions a rule talks about) is listed in `keep`."""
     count = [0]
     memo = {}
+    active = []  # function nodes whose bodies are being expanded (recursive helpers are not unfolded twice)
 
     def f(x):
         if x.op == "call" and count[0] < limit:
             fn = x.fn
             q = fn.ref.qual if fn.op == "ref" else None
+            if q in ("builtins.map", "itertools.starmap") and len(x.args) == 2 and not x.kw:
+                # map(F, S) == (F(e) for e in S);  starmap(F, S) == (F(*e) for e in S)   for an inlinable F
+                F, S = x.args
+                if F.op == "ref" and (F.ref.qual in keep or not F.ref.qual.startswith("autograd.")) and q == "builtins.map" and not F.ref.qual.startswith(("operator.", "_operator.")):
+                    # a vocabulary / external function mapped over S: (F(e) for e in S) with F kept as a call
+                    el = T("iterelem", x.node, x.mod, src=S)
+                    return T("comp", x.node, x.mod, elt=T("call", x.node, x.mod, fn=F, args=[el], kw={}, dstar=[]), src=S, conds=[], kind="GeneratorExp", from_map=True)
+                clo, pre, prekw = ev.as_closure(F)
+                if clo is not None and clo.fnode not in active:
+                    el = T("iterelem", x.node, x.mod, src=S)
+                    arg = el if q == "builtins.map" else T("star", x.node, x.mod, x=el)
+                    body = ev.apply(clo, list(pre) + [arg], dict(prekw), [])
+                    if body is not None and body.op != "unknown":
+                        count[0] += 1
+                        active.append(clo.fnode)
+                        try:
+                            elt = tmap(body, f, memo)
+                        finally:
+                            active.pop()
+                        return T("comp", x.node, x.mod, elt=elt, src=S, conds=[], kind="GeneratorExp", from_map=True)
             if q is not None and (q in keep or not q.startswith("autograd.")):
                 return x
             if fn.op == "attr":
